@@ -32,10 +32,10 @@ from traits.trait_set_object import TraitSetEvent
 
 META = {
     "level": "exploration",
-    "rule": ("case = one history: (name pair out of ~100 generated from links c/d (Instance), cs "
-             "(List), cd (Dict values), ss (Set), groups [a,b], separators '.'/':' at every "
-             "position, depth 1-3, final v or [v,w]) x handler flavour (functions / bound methods) "
-             "x random tree x 16-20 random operations (link reassignment to fresh subtree / None, "
+    "rule": ("case = one history: (name pair out of 102 (quick) / 163 (thorough) generated from "
+             "links c/d (Instance), cs (List), cd (Dict values), ss (Set), groups [a,b], separators "
+             "'.'/':' at every position, depth 1-3, final v or [v,w]) x handler flavour (functions "
+             "/ bound methods) x random tree x 16-20 (thorough: 16-28) random operations (link reassignment to fresh subtree / None, "
              "whole-container assignment, every mutating list/dict/set method, re-insertion of a "
              "detached subtree root, on attached on-path, attached off-path and detached nodes), "
              "removal of the registrations late in the history (sometimes followed by a fresh "
@@ -46,17 +46,20 @@ META = {
              "expected a call."),
     "phases": [{"name": "main", "flavour": "P", "shards": 16}],
     "gates": {
-        # gates are on NON-EMPTY matched comparisons (DESIGN C16, note N)
-        "quick": {"evaluations": 150000, "final_nonempty_matched": 20000,
-                  "link_reported_matched": 1500, "link_colon_silent_matched": 800,
-                  "item_dot_matched": 1500, "item_colon_silent_matched": 800,
-                  "after_remove_nonvacuous_silent": 3000, "detached_probe_silent": 5000,
-                  "reinsert_nonempty_matched": 300},
-        "thorough": {"evaluations": 3000000, "final_nonempty_matched": 400000,
-                     "link_reported_matched": 30000, "link_colon_silent_matched": 16000,
-                     "item_dot_matched": 30000, "item_colon_silent_matched": 16000,
-                     "after_remove_nonvacuous_silent": 60000, "detached_probe_silent": 100000,
-                     "reinsert_nonempty_matched": 6000},
+        # gates are on NON-EMPTY matched comparisons (DESIGN C16, note N): a comparison counts
+        # only if the voices were actually called (or, for the *_silent ones, the model says
+        # they would have been called had the link been '.', the node attached, the
+        # registration still there)
+        "quick": {"evaluations": 500000, "final_nonempty_matched": 40000,
+                  "link_reported_matched": 2500, "link_colon_silent_matched": 2500,
+                  "item_dot_matched": 3000, "item_colon_silent_matched": 2800,
+                  "after_remove_nonvacuous_silent": 10000, "detached_nonvacuous_silent": 40000,
+                  "reinsert_nonempty_matched": 2000},
+        "thorough": {"evaluations": 8000000, "final_nonempty_matched": 500000,
+                     "link_reported_matched": 35000, "link_colon_silent_matched": 35000,
+                     "item_dot_matched": 40000, "item_colon_silent_matched": 40000,
+                     "after_remove_nonvacuous_silent": 150000, "detached_nonvacuous_silent": 600000,
+                     "reinsert_nonempty_matched": 30000},
     },
     "assumptions": [
         "graphs are tree-shaped: every object is referenced from at most one place",
@@ -229,7 +232,27 @@ def make_pairs():
     return pairs
 
 
+def make_deep_pairs():
+    """Thorough tier only: every depth-3 combination of link kinds, the
+    separator pattern rotating over '...', ':::', '.:.', ':.:'."""
+    pairs = []
+    have = {p.legacy for p in make_pairs()}
+    pats = ("...", ":::", ".:.", ":.:")
+    singles = ("c", "cs", "cd", "ss")
+    n = 0
+    for a in singles:
+        for b in singles:
+            for c in singles:
+                pat = pats[n % 4]
+                n += 1
+                p = Pair([((a,), pat[0]), ((b,), pat[1]), ((c,), pat[2])], ("v",))
+                if p.legacy not in have:
+                    pairs.append(p)
+    return pairs
+
+
 PAIRS = make_pairs()
+DEEP_PAIRS = make_deep_pairs()
 
 # --------------------------------------------------------------------------
 # recorders
@@ -383,6 +406,7 @@ class History:
         self.recent = []              # recently detached nodes, oldest first
         self.fresh_detached = []      # nodes detached by the last operation
         self.reinserted = set()       # serials of re-inserted subtree nodes
+        self.ever_final = set()       # serials of nodes both voices were once called for
         self.nops = 0
         # structural class of the last operation ("assign@list.", "item@offpath-dict", ...):
         # the name-pair class used in mechanism keys is the class of the path
@@ -559,6 +583,7 @@ class History:
                                     "%s: calls for other names: legacy4 %r observe %r"
                                     % (what, Ll + Li + Lx, Ol + Ox + r.C))
                 if expected:
+                    self.ever_final.add(s)
                     self.count("final_nonempty_matched")
                     self.count("nonempty:" + self.pair.cls)
                     if s in self.reinserted:
@@ -568,6 +593,10 @@ class History:
                     self.count("final_empty_matched")
                     if not is_att:
                         self.count("detached_probe_silent")
+                        if s in self.ever_final and f in self.pair.finals:
+                            # was called for while attached, silent now
+                            self.count("detached_nonvacuous_silent")
+                            self.sig("probe-detached", f, self.trigger)
         r.clear()
 
     # -- operations ---------------------------------------------------------------
@@ -635,10 +664,13 @@ class History:
             self.fresh_detached.extend(sub)
         came = [x for x in after if ser(x) not in set(before_ids)]
         for x in came:
+            sub, _ = walk(x)
             if any(x is dr for dr in self.detached_roots):
                 self.detached_roots = [dr for dr in self.detached_roots if dr is not x]
-                sub, _ = walk(x)
                 self.reinserted.update(ser(y) for y in sub)
+            if s not in attached:
+                # inserted below a detached node: detached as well, probe it
+                self.fresh_detached.extend(sub)
         self.recent = self.recent[-24:]
         self.ev()
         what = "[%s <-> %s] op %r on %r (%s)" % (self.pair.legacy, self.pair.observe, op, m, pos)
@@ -1098,16 +1130,16 @@ def shrink(pair, flavour, root_spec, ops, key, budget=120):
     return spec, ops
 
 
-def run_history(ctx, h_index):
+def run_history(ctx, h_index, pairs):
     rng = ctx.rng("hist", h_index)
-    pair = PAIRS[h_index % len(PAIRS)]
+    pair = pairs[h_index % len(pairs)]
     flavour = "method" if rng.random() < 0.35 else "fn"
     counter = itertools.count(1)
     if rng.random() < 0.15:
         root_spec = {"s": 0}
     else:
         root_spec = gen_spec(rng, itertools.chain([0], counter), pair, 0, [14])
-    nsteps = rng.randint(16, 20)
+    nsteps = rng.randint(16, ctx.scale(20, 28))
     t_remove = rng.randint(nsteps * 5 // 10, nsteps - 2) if rng.random() < 0.9 else None
     rereg = t_remove is not None and rng.random() < 0.3
     ops = []
@@ -1144,14 +1176,15 @@ def run_history(ctx, h_index):
 
 def run(ctx):
     install_exception_channels()
-    ctx.note("name_pairs", [p.legacy + " <-> " + p.observe for p in PAIRS])
-    nh = ctx.scale(4000, 90000)
+    pairs = PAIRS + (DEEP_PAIRS if ctx.tier == "thorough" else [])
+    ctx.note("name_pairs", [p.legacy + " <-> " + p.observe for p in pairs])
+    nh = ctx.scale(6000, 75000)
     for h in range(nh):
         if not ctx.mine(h):
             continue
         if not ctx.begin("h:%d" % h):
             continue
         try:
-            run_history(ctx, h)
+            run_history(ctx, h, pairs)
         finally:
             ctx.end()
